@@ -33,7 +33,7 @@ na = [{"property_id": p["id"], "reason": NA.get(p["id"], "check not yet built; s
       for p in props if p["id"] not in claimed]
 man = {
     "version": 1,
-    "setup_cmd": "cd lean && lake build",
+    "setup_cmd": "python3 tools/gen_tables.py /repo lean/CprocVerif/Gen; cd lean && lake build",
     "hooks": {"guard": "CPROC_VERIF", "enable": "no hooks are needed: harnesses link /repo's translation units unmodified",
               "baseline_off_cmd": "make -C /repo && cd /repo && CCQBE=./cproc-qbe ./runtests",
               "source_commits": [], "add_only": True},
